@@ -53,6 +53,10 @@ func runC11(p *Prog, r *Report) {
 	e2Obligations(p, r, "C11.2/E2")
 	r.Floor("C11.2/E2", "e2.order_edges", 10)
 
+	r.Describe("C11.4/E10a", "every builtin close(ch) follows a close-once idiom (once / flag / swap / RemovePipe / init / fresh)")
+	e10Close(p, r, "C11.4/E10a")
+	r.Floor("C11.4/E10a", "e10.close_sites", 55)
+
 	r.Describe("C11.3/E1", "no lock is acquired while already held (directly or through a callee)")
 	e1Obligations(p, r, "C11.3/E1", map[string]bool{"double-lock": true, "callee-relock": true})
 }
